@@ -414,7 +414,10 @@ impl<P, T> OccupiedEntry<'_, P, T> {
     /// # #[cfg(not(feature = "ipnet"))]
     /// # fn main() {}
     /// ```
-    pub fn remove(&mut self) -> T {
+    ///
+    /// This function consumes the entry: once the value is removed, there is nothing left that
+    /// the other functions of an occupied entry could refer to.
+    pub fn remove(self) -> T {
         let value = self.node.value.take().unwrap();
         self.count.fetch_sub(1, Ordering::Relaxed);
         value
